@@ -51,6 +51,13 @@ def run(ctx):
         d = tempfile.mkdtemp(prefix="ddsverif_c19_")
         tmpdirs.append(d)
         return d
+    # the scratch directory of the process has a name with characters that a URI escapes (a space, '@', '+', a non-ASCII letter: the
+    # '<workspace>@tmp' of a CI server): the store hands local files to dbutils by name, whatever the name
+    odd_tmp = os.path.join(tempfile.mkdtemp(prefix="ddsverif_c19t_"), "nightly pipeline@tmp+\u00e9")
+    os.makedirs(odd_tmp)
+    saved_tmp = (tempfile.tempdir, os.environ.get("TMPDIR"))
+    tempfile.tempdir = odd_tmp
+    os.environ["TMPDIR"] = odd_tmp
     try:
         # ---- documented spellings, end to end through dds.keep / dds.load ----
         for spelling, member in DOCUMENTED.items():
@@ -205,7 +212,12 @@ def run(ctx):
                                    for m_ in (False, True)]:
             d = mkd()
             st = make_dbfs_store(d)
-            st.store_blob("klegacy", v, None)
+            try:
+                st.store_blob("klegacy", v, None)
+            except BaseException as e:
+                res.violations.append({"what": "the DBFS store cannot store a result of type %s: %s: %s" % (type(v).__name__, type(e).__name__, str(e)[:160]),
+                                       "input": {"value": repr(v), "temporary_directory": tempfile.gettempdir()}, "kf": None})
+                continue
             mp = os.path.join(d, "dds_internal", "blobs", "klegacy.meta")
             meta = json.load(open(mp))
             current = meta["protocol"]
@@ -249,8 +261,13 @@ def run(ctx):
             ct = ["FULL", "LINK_ONLY", "NO_COMMIT"][i % 3]
             paths = gen_paths(rng, rng.randint(1, 4))
             ops = [op for op in gen_ops(rng, paths, rng.randint(2, 14)) if op[0] != "reopen"]
+            if i < 6:
+                # (the first sequence of every commit type, twice, always carries the directed part below)
+                while len(paths) < 2:
+                    paths = gen_paths(rng, 3)
+                ops = [["store", "k1", 1], ["store", "k2", 2]] + [op for op in ops if op[0] not in ("sync", "fetch_paths")]
             stored_keys = sorted({op[1] for op in ops if op[0] == "store"})
-            if len(paths) >= 2 and len(stored_keys) >= 2 and i % 2 == 0:
+            if len(paths) >= 2 and len(stored_keys) >= 2 and (i % 2 == 0 or i < 6):
                 # directed: one commit gives the same key to two paths, one of which pointed elsewhere before (an alias next to
                 # a path that moves); then both are resolved
                 pa, pb = ["/" + "/".join(x) for x in paths[:2]]
@@ -304,6 +321,12 @@ def run(ctx):
         res.sample({"commit": meta_l[0][0], "ops": meta_l[0][1][:8], "answers": meta_l[0][2][:8], "copies": meta_l[0][3], "records": meta_l[0][4]})
     finally:
         api._store_var = saved
+        tempfile.tempdir = saved_tmp[0]
+        if saved_tmp[1] is None:
+            os.environ.pop("TMPDIR", None)
+        else:
+            os.environ["TMPDIR"] = saved_tmp[1]
+        shutil.rmtree(os.path.dirname(odd_tmp), ignore_errors=True)
         for d in tmpdirs:
             shutil.rmtree(d, ignore_errors=True)
     res.rule = ("documented commit-type spellings (lower/upper/default) with str / bytes / object results; legacy references dbfs.string, "
